@@ -9,6 +9,7 @@ import (
 	"fmt"
 	"math"
 	"math/big"
+	"sort"
 	"strconv"
 	"strings"
 
@@ -31,7 +32,11 @@ const prelude = `({
  fo:function(m,cb){for (const x of m) cb(x)},
  arr:function(m){return Array.from(m)}, ks:function(m){return [...m.keys()]}, vs:function(m){return [...m.values()]},
  osyms:function(o){return Object.getOwnPropertySymbols(o)},
- okeys:function(o){return Reflect.ownKeys(o).filter(function(k){return typeof k==='symbol'})}
+ okeys:function(o){return Reflect.ownKeys(o).filter(function(k){return typeof k==='symbol'})},
+ assign:function(o){return Object.assign({},o)}, spread:function(o){return {...o}},
+ rest:function(o){var {zzz, ...r}=o; return r},
+ descs:function(o){var d=Object.getOwnPropertyDescriptors(o), r={}; Object.getOwnPropertySymbols(d).forEach(function(s){r[s]=d[s].value}); return r},
+ fa:function(o,cb){Object.assign(new Proxy({}, {set:function(t,k,v){cb(k,v);return true}}), o)}
 })`
 
 type slot struct {
@@ -226,6 +231,27 @@ func (c *caseSt) buildKey(i int, rep int, hash uint64, repr string) (goja.Value,
 			return nil, err
 		}
 		return c.vm.ToValue(string(b)), nil
+	case strings.HasPrefix(repr, "go:cat:"):
+		// JS-level concatenation of two Go strings imported with ToValue (neither scanned yet):
+		// importedString.Concat keeps the result as an unscanned importedString.
+		parts := strings.SplitN(repr[7:], "+", 2)
+		if len(parts) != 2 {
+			return nil, fmt.Errorf("bad go:cat")
+		}
+		a, err := hex.DecodeString(parts[0])
+		if err != nil {
+			return nil, err
+		}
+		b, err := hex.DecodeString(parts[1])
+		if err != nil {
+			return nil, err
+		}
+		f, err := c.vm.RunString("(function(a,b){return a+b})")
+		if err != nil {
+			return nil, err
+		}
+		fn, _ := goja.AssertFunction(f)
+		return fn(goja.Undefined(), c.vm.ToValue(string(a)), c.vm.ToValue(string(b)))
 	case strings.HasPrefix(repr, "go:u16:"):
 		hx := repr[7:]
 		if len(hx)%4 != 0 {
@@ -415,8 +441,8 @@ func (c *caseSt) exec(op string) (res string, emitted bool) {
 			}
 			name := map[byte]string{'e': "entries", 'k': "keys", 'v': "values", 'y': "symit"}[kind]
 			s.js = c.call(name, c.obj)
-		case 'f', 'o':
-			if !js || c.mode == "sym" {
+		case 'f', 'o', 'a':
+			if !js || (c.mode == "sym") != (kind == 'a') {
 				return "err:unsupported", false
 			}
 			if c.coSlot >= 0 {
@@ -467,7 +493,7 @@ func (c *caseSt) exec(op string) (res string, emitted bool) {
 				return c.entryTok(s.kind, nil, val, false, true), false
 			}
 			return c.entryTok(s.kind, val, nil, true, false), false
-		case 'f', 'o':
+		case 'f', 'o', 'a':
 			if c.coActive {
 				// only reachable if the generator interleaves wrongly; run() intercepts n<coSlot> inside the callback
 				return "err:reentrant", false
@@ -553,6 +579,64 @@ func (c *caseSt) listAll(variant string) string {
 		default:
 			return "err:unsupported"
 		}
+	case "O", "P", "T", "D":
+		// symbol table copied by Object.assign / object spread / rest destructuring / getOwnPropertyDescriptors
+		if c.mode != "sym" {
+			return "err:unsupported"
+		}
+		name := map[string]string{"O": "assign", "P": "spread", "T": "rest", "D": "descs"}[variant]
+		cp := c.call(name, c.obj)
+		for _, e := range c.arrayOf(c.call("osyms", cp)) {
+			items = append(items, c.canon(e)+":"+vtok(c.call("oget", cp, e)))
+		}
+	case "M":
+		// Go-side ExportTo into a Go map (mapObject.exportToMap / setObject.exportToMap); order is lost: sorted
+		switch c.mode {
+		case "map":
+			var m map[interface{}]interface{}
+			if err := c.vm.ExportTo(c.obj, &m); err != nil {
+				return "exc:exportto"
+			}
+			for k, v := range m {
+				items = append(items, goCanon(k)+":"+goVal(v))
+			}
+		case "set":
+			var m map[interface{}]bool
+			if err := c.vm.ExportTo(c.obj, &m); err != nil {
+				return "exc:exportto"
+			}
+			for k := range m {
+				items = append(items, goCanon(k)+":-")
+			}
+		default:
+			return "err:unsupported"
+		}
+		sort.Strings(items)
+		return "{" + strings.Join(items, "|") + "}"
+	case "S":
+		// Go-side ExportTo into a slice (setObject.exportToArrayOrSlice), and into an array of the right length
+		if c.mode != "set" {
+			return "err:unsupported"
+		}
+		var sl []interface{}
+		if err := c.vm.ExportTo(c.obj, &sl); err != nil {
+			return "exc:exportto"
+		}
+		for _, e := range sl {
+			items = append(items, goCanon(e)+":-")
+		}
+		var arr [3]interface{}
+		err := c.vm.ExportTo(c.obj, &arr)
+		if (err == nil) != (len(sl) == 3) {
+			return "err:arraylen"
+		}
+		if err == nil {
+			for i := range arr {
+				if goCanon(arr[i]) != goCanon(sl[i]) {
+					return "err:arrayelem"
+				}
+			}
+		}
 	case "G":
 		switch c.mode {
 		case "map":
@@ -599,6 +683,11 @@ func (c *caseSt) startCoroutine(s *slot) {
 			deliver(call.Argument(1), call.Argument(0), true)
 			return goja.Undefined()
 		}
+	} else if s.kind == 'a' {
+		cb = func(call goja.FunctionCall) goja.Value {
+			deliver(call.Argument(0), call.Argument(1), true)
+			return goja.Undefined()
+		}
 	} else {
 		cb = func(call goja.FunctionCall) goja.Value {
 			x := call.Argument(0)
@@ -614,6 +703,8 @@ func (c *caseSt) startCoroutine(s *slot) {
 	name := "fe"
 	if s.kind == 'o' {
 		name = "fo"
+	} else if s.kind == 'a' {
+		name = "fa"
 	}
 	res := common.Safe(func() string {
 		c.call(name, c.obj, c.vm.ToValue(cb))
